@@ -7,6 +7,17 @@ TB = ("Trusted: Coq 8.16.1 kernel (vm_compute, no native_compute); no axioms (ev
       "context'); the hand-written Gallina model is tied to /repo by a correspondence run (cases.v evaluated by coqc) on "
       "generated inputs; harness generators/oracle; ")
 CLAIMED = {
+ 'C06': dict(
+    text="Theorem: for every document (children of any kinds at any byte offsets) and EVERY list of feed offsets that eventually "
+         "covers the document (any number of chunks, single bytes, cuts anywhere) the push parser model yields exactly the pull "
+         "parser's callbacks in order and no error; no chunking at all makes it fail; the pre-fix validation of the whole root is "
+         "refuted with a 2-chunk witness. Tied to the code by feeding generated documents (1-3 ontology elements, events with "
+         "properties named event/ontology/edxml, multi-byte values, foreign elements) in ALL 2-chunk splits (exhaustive), "
+         "byte-at-a-time and random partitions through EDXMLPushParser vs EDXMLPullParser and the push/pull filters, and by "
+         "evaluating the model on the real byte offsets of the children.",
+    note=TB + "lxml's feed semantics (which children are in the tree / complete after a feed) is the model's assumption, validated "
+         "by the correspondence only; foreign elements are compared by tag and attributes and are not in the Gallina model.",
+    technique="Coq proof over all chunkings of a feed model + exhaustive 2-chunk correspondence", ref='5 C06'),
  'C07': dict(
     text="Theorems: for every initial content, both XML backed classes and EVERY sequence of public mutations the calls raise "
          "exactly when the dictionary-of-sets model says, the views show the model's state and the XML element equals the "
